@@ -114,6 +114,41 @@ def rule_kernel_path(repo, col):
                     if isinstance(x, ast.Name) and isinstance(
                             x.ctx, ast.Store) and x.id in outs:
                         rebound.append(n)
+    # ... and not changed in place (nor their elements)
+    MUT = {'append', 'extend', 'insert', 'pop', 'remove', 'clear', 'update',
+           'setdefault', 'popitem', 'sort', 'reverse', 'fill'}
+    after = False
+    for n in body_walk(fn):
+        if n is k:
+            after = True
+            continue
+        if not after:
+            continue
+        derived = set(outs)
+        if isinstance(n, ast.For) and any(
+                isinstance(x, ast.Name) and x.id in outs
+                for x in ast.walk(n.iter)):
+            derived |= {x.id for x in ast.walk(n.target)
+                        if isinstance(x, ast.Name)}
+            for b in ast.walk(n):
+                if isinstance(b, (ast.Delete, ast.Assign, ast.AugAssign)):
+                    tg = b.targets if not isinstance(b, ast.AugAssign) \
+                        else [b.target]
+                    for t in tg:
+                        if isinstance(t, ast.Subscript) and isinstance(
+                                t.value, ast.Name) and t.value.id in derived:
+                            rebound.append(b)
+                if isinstance(b, ast.Call) and isinstance(
+                        b.func, ast.Attribute) and b.func.attr in MUT and \
+                        isinstance(b.func.value, ast.Name) and \
+                        b.func.value.id in derived:
+                    rebound.append(b)
+        if isinstance(n, (ast.Delete, ast.Assign, ast.AugAssign)):
+            tg = n.targets if not isinstance(n, ast.AugAssign) else [n.target]
+            for t in tg:
+                if isinstance(t, ast.Subscript) and isinstance(
+                        t.value, ast.Name) and t.value.id in outs:
+                    rebound.append(n)
     col.check(not rebound, rule, TABLE, 'Table.filter',
               'installed-unchanged', rebound[0] if rebound else k,
               'ids, metadata and matrix returned by the kernel are stored '
@@ -174,6 +209,17 @@ def rule_ensure_ascii(repo, col):
                     node.args and 'dumps' in unparse(node.args[0])):
                 continue
             n += 1
+            shadow = [kw.arg for kw in node.keywords
+                      if kw.arg in ('default', 'skipkeys')]
+            if shadow:
+                fn0 = m.enclosing_function(node)
+                q0 = m.qual.get(fn0, '<module>') if fn0 is not None \
+                    else '<module>'
+                col.bad(rule, TABLE, q0, 'encoder-kwargs', node,
+                        'dumps is given %s: `default=` replaces the '
+                        'encoder\'s own conversion of numpy scalars / '
+                        'arrays (they are written as text), `skipkeys` '
+                        'drops entries' % shadow)
             bad = ea is not None and not (isinstance(ea, ast.Constant) and
                                           ea.value is True)
             fn = m.enclosing_function(node)
